@@ -242,6 +242,40 @@ def reach(g, a, b):
     return False
 
 
+def very_deep_case(d):
+    """Literal nesting far beyond the package's depth limit, written as text
+    (the reference interpreter is itself recursive): only the package's own
+    limit stands between such a page and CPython's recursion limit.  Oracle:
+    a str comes back in time, with an error element and a recorded message."""
+    text = "core"
+    for _ in range(d):
+        text = "{{tb|" + text + "}}"
+    ctx = env.new_ctx()
+    try:
+        ctx.add_page("Template:tb", 10, "<{{{1|}}}>")
+        ctx.start_page("Test page")
+        status, val, el = guard.call(ctx.expand, BOUND_S, text)
+        msgs = len(ctx.warnings) + len(ctx.errors)
+    finally:
+        try:
+            ctx.close_db_conn()
+        except Exception:
+            pass
+    base = {"part": "graph", "class": "very-deep-nesting"}
+    if status == "timeout":
+        return ({"kind": "timeout", **base},
+                f"nesting {d}: expand() still running after {BOUND_S}s")
+    if status == "exc":
+        return ({"kind": "exception", **base, **exc_bucket(val)},
+                f"nesting {d}: {exc_text(val)}")
+    if not isinstance(val, str):
+        return ({"kind": "not-str", **base}, repr(type(val)))
+    if ERR not in val or msgs == 0:
+        return ({"kind": "silent-cut", **base},
+                f"nesting {d}: no in-band error / message: {val[:100]!r}")
+    return None
+
+
 def small_graph_cases():
     """All call graphs on <=3 templates (adjacency incl. self loops), each
     edge realised as a plain call in the body; page calls template 0."""
@@ -464,6 +498,15 @@ def shard_graph(idx, nshards, seed, n_random, known, quick):
     for i, (lib, page) in enumerate(fixed):
         if i % nshards == idx:
             one(lib, page, "enumerated")
+    for j, d in enumerate((400, 1000)):
+        if j % nshards == idx:
+            v = very_deep_case(d)
+            part.case(h(("very-deep", d)), True,
+                      classes=["graph:very-deep-nesting"],
+                      sample={"page": "{{tb|" * 3 + "... nesting %d" % d})
+            if v is not None:
+                record(part, known, buckets, v[0], v[1],
+                       {"part": "very-deep", "depth": d}, d)
 
     def body(case):
         one(case[0], case[1], "random")
@@ -601,6 +644,12 @@ def replay(run, case):
         run.case(h([case["lib"], case["page"]]), True, sample={"page": text[:200]})
         if status == "viol":
             run.violation(detail[0], detail[1], case)
+    elif case["part"] == "very-deep":
+        v = very_deep_case(case["depth"])
+        run.case(h(("very-deep", case["depth"])), True,
+                 sample={"depth": case["depth"]})
+        if v is not None:
+            run.violation(v[0], v[1], case)
     else:
         ctx = env.new_ctx()
         ctx.add_page("Template:tt", 10, "T{{{1|}}}")
